@@ -36,9 +36,20 @@ theorem inv_init (file : List Nat) : Inv (init file) := by
 theorem setT_same (f : Nat → TSt) (t : Nat) (v : TSt) : setT f t v t = v := by simp [setT]
 theorem setT_other (f : Nat → TSt) (t u : Nat) (v : TSt) (h : u ≠ t) : setT f t v u = f u := by simp [setT, h]
 
-theorem inv_step (s : St) (a : Act) (s' : St) (h : Inv s) (hs : step repaired s a = some s') : Inv s' := by
+theorem inv_step (s : St) (a : Act) (s' : St) (h : Inv s) (hN : s.unmapPending = false)
+    (hs : step repaired s a = some s') : Inv s' := by
   obtain ⟨⟨hd1, hd2⟩, hV, hC, hD, hB, hO⟩ := h
   cases a with
+  | staleUnmap => simp [step, hN] at hs
+  | exit =>
+    simp only [step, repaired] at hs
+    cases hl : s.live with
+    | true => simp [hl] at hs
+    | false =>
+      simp [hl] at hs; subst hs
+      refine ⟨⟨fun hc => by simp at hc, fun _ => hd2 (by simp [hl])⟩, ?_, hC, ?_, hB, hO⟩
+      · intro t ht; have := (hV t ht).2.1; rw [hl] at this; simp at this
+      · intro t ht; have := (hD t ht).2.1; rw [hl] at this; simp at this
   | summon t =>
     simp only [step, repaired] at hs
     split at hs
@@ -282,9 +293,9 @@ theorem inv_step (s : St) (a : Act) (s' : St) (h : Inv s) (hs : step repaired s 
             · subst hut; simp [setT_same]
             · simp only [setT_other _ _ _ _ hut]; exact hB u
           · intro u w hu _; exact absurd (hthr u _ hu (by simp)) id
-        · -- a record appeared during the drain: give up
+        · -- a record appeared during the drain: close instead of deleting
           simp [hme] at hs; subst hs
-          refine ⟨⟨hd1, hd2⟩, ?_, fun hne => absurd hst hne, ?_, ?_, ?_⟩
+          refine ⟨⟨fun _ => hd1 ⟨hl, hlt⟩, fun hc2 => absurd ⟨hl, by simp⟩ hc2⟩, ?_, fun _ => ⟨hcl, hhe⟩, ?_, ?_, ?_⟩
           · intro u hu
             by_cases hut : u = t
             · subst hut; simp [setT_same] at hu
@@ -350,16 +361,95 @@ theorem inv_step (s : St) (a : Act) (s' : St) (h : Inv s) (hs : step repaired s 
       exact ⟨⟨hd1, fun hc2 => absurd ⟨hc.1.1, hlt⟩ hc2⟩, hV, hC, hD, hB, hO⟩
     · simp at hs
 
+/-- with the waiting summon no close callback is ever left behind -/
+theorem pending_step (s : St) (a : Act) (s' : St) (hN : s.unmapPending = false) (hs : step repaired s a = some s') :
+    s'.unmapPending = false := by
+  have key : ∀ (o : Option St), (∀ x, o = some x → x.unmapPending = false) → o = some s' → s'.unmapPending = false :=
+    fun o h e => h s' e
+  cases a with
+  | summon t =>
+    simp only [step, repaired] at hs
+    by_cases h0 : ((s.th t).pc != 0) = true
+    · simp [h0] at hs
+    · simp only [h0] at hs
+      cases hl : s.live <;> cases hc : s.closing <;> simp [hl, hc] at hs <;> subst hs <;> simp [hN]
+  | begin t =>
+    simp only [step] at hs
+    by_cases h0 : ((s.th t).pc != 1) = true
+    · simp [h0] at hs
+    · simp [h0] at hs; subst hs; simp [hN]
+  | write t k =>
+    simp only [step] at hs
+    by_cases h0 : ((s.th t).pc != 2) = true
+    · simp [h0] at hs
+    · simp [h0] at hs; subst hs; simp [hN]
+  | del t k =>
+    simp only [step] at hs
+    split at hs
+    · simp at hs
+    · split at hs
+      · cases hs; exact hN
+      · split at hs
+        · split at hs <;> (cases hs; exact hN)
+        · cases hs; exact hN
+  | cease t =>
+    simp only [step] at hs
+    by_cases h0 : ((s.th t).pc != 2) = true
+    · simp [h0] at hs
+    · simp [h0] at hs; subst hs; simp [hN]
+  | destroyFinish t =>
+    simp only [step, repaired] at hs
+    by_cases h0 : ((s.th t).pc != 4) = true
+    · simp [h0] at hs
+    · simp only [h0] at hs
+      by_cases h1 : (!s.holders.isEmpty) = true
+      · simp [h1] at hs
+      · simp only [h1] at hs
+        by_cases h2 : (true && !s.mem.isEmpty) = true
+        · simp only [h2] at hs; simp at hs; subst hs; simp [hN]
+        · simp only [h2] at hs; simp at hs; subst hs; simp [hN]
+  | tickRead => simp [step] at hs; subst hs; simp [hN]
+  | tickDecide =>
+    simp only [step, repaired] at hs
+    by_cases h0 : (!s.armed) = true
+    · simp [h0] at hs
+    · simp only [h0] at hs
+      by_cases h1 : (s.live && s.holders.isEmpty && !s.closing && (!true || !s.touched)) = true
+      · simp only [h1] at hs; simp at hs; subst hs; simp [hN]
+      · simp only [h1] at hs; simp at hs; subst hs; simp [hN]
+  | closeFlush =>
+    simp only [step] at hs
+    by_cases h0 : (s.live && s.stage == 1) = true
+    · simp only [h0] at hs; simp at hs; subst hs; simp [hN]
+    · simp [h0] at hs
+  | closeDone =>
+    simp only [step] at hs
+    by_cases h0 : (s.live && s.stage == 2) = true
+    · simp only [h0] at hs; simp at hs; subst hs; simp [hN]
+    · simp [h0] at hs
+  | flushTick =>
+    simp only [step] at hs
+    by_cases h0 : (s.live && !s.closing && s.stage == 0) = true
+    · simp only [h0] at hs; simp at hs; subst hs; simp [hN]
+    · simp [h0] at hs
+  | staleUnmap => simp [step, hN] at hs
+  | exit =>
+    simp only [step, repaired] at hs
+    cases hl : s.live <;> simp [hl] at hs
+    subst hs; exact hN
+
 /-- For the repaired protocol every acknowledged, not deleted write is durable in every reachable
     state — in particular whenever the swamp is re-opened after a close or a destroy. -/
 theorem durable_repaired : Holds repaired := by
   constructor
   intro file sched s hr
-  exact (LTS.inv_run (step repaired) Inv (fun s a s' hi hs => inv_step s a s' hi hs) (init file) sched s (inv_init file) hr).dur
+  exact (LTS.inv_run (step repaired) (fun s => Inv s ∧ s.unmapPending = false)
+    (fun s a s' hi hs => ⟨inv_step s a s' hi.1 hi.2 hs, pending_step s a s' hi.2 hs⟩)
+    (init file) sched s ⟨inv_init file, rfl⟩ hr).1.dur
 
-/-- Non-vacuity: a destroy that finds a record after the drain gives up; a later idle close flushes. -/
+/-- Non-vacuity: a destroy that finds a record after the drain closes the swamp instead (flush, unmap). -/
 example : (run repaired (init [1]) [.summon 1, .summon 2, .del 2 1, .write 1 5, .cease 1, .destroyFinish 2,
-    .tickRead, .tickDecide, .closeFlush, .closeDone]).map (fun s => (s.live, s.file, s.acked)) = some (false, [5], [5]) := by decide
+    .closeFlush, .closeDone]).map (fun s => (s.live, s.file, s.acked)) = some (false, [5], [5]) := by decide
 
 /-! ### the current protocol -/
 
@@ -373,20 +463,38 @@ def witnessDestroy : List Act :=
 /-- the same schedule when summon already takes the vigil (no separate begin step) -/
 def witnessDestroyA : List Act := [.summon 1, .summon 2, .del 2 1, .write 1 5, .cease 1, .destroyFinish 2]
 
-theorem destroy_loses_acked_write (as : Bool) :
-    (run { destroyRechecks := false, atomicSummon := as } (init [1]) (if as then witnessDestroyA else witnessDestroy)).map
+theorem destroy_loses_acked_write (as w x : Bool) :
+    (run { destroyRechecks := false, atomicSummon := as, summonWaitsForUnmap := w, stopWaitsUntilClosed := x } (init [1])
+      (if as then witnessDestroyA else witnessDestroy)).map
       (fun s => (s.live, s.file, s.acked)) = some (false, [], [5]) := by
-  cases as <;> decide
+  cases as <;> cases w <;> cases x <;> decide
 
 /-- (2) the listener reads a stale last-interaction time; a request summons the instance; the
     listener closes it; the request's write lands in the closed instance. -/
 def witnessIdle : List Act :=
   [.summon 9, .begin 9, .cease 9, .tickRead, .summon 1, .tickDecide, .closeFlush, .closeDone, .begin 1, .write 1 5]
 
-theorem idle_close_loses_acked_write (dr : Bool) :
-    (run { destroyRechecks := dr, atomicSummon := false } (init [1]) witnessIdle).map
+theorem idle_close_loses_acked_write (dr w x : Bool) :
+    (run { destroyRechecks := dr, atomicSummon := false, summonWaitsForUnmap := w, stopWaitsUntilClosed := x } (init [1]) witnessIdle).map
       (fun s => (s.live, s.file, s.acked)) = some (false, [1], [1, 5]) := by
-  cases dr <;> decide
+  cases dr <;> cases w <;> cases x <;> decide
+
+/-- (3) an idle close has flushed the instance; a request summons, does not wait for the map entry to go away and
+    gets a fresh instance; the old instance's close callback then removes *that* instance from the map; the
+    request's acknowledged write stays in an instance nobody will find again. -/
+def witnessUnmap : List Act :=
+  [.summon 9, .cease 9, .tickRead, .tickDecide, .closeFlush, .summon 1, .write 1 5, .cease 1, .staleUnmap]
+
+theorem stale_unmap_loses_acked_write (x : Bool) :
+    (run { destroyRechecks := true, atomicSummon := true, summonWaitsForUnmap := false, stopWaitsUntilClosed := x } (init [1]) witnessUnmap).map
+      (fun s => (s.live, s.file, s.acked)) = some (false, [1], [1, 5]) := by cases x <;> decide
+
+/-- (4) GracefulStop returns while the swamp is still mapped (its close has not flushed yet) and the process exits -/
+def witnessExit : List Act := [.summon 1, .write 1 5, .cease 1, .exit]
+
+theorem early_exit_loses_acked_write :
+    (run { destroyRechecks := true, atomicSummon := true, summonWaitsForUnmap := true, stopWaitsUntilClosed := false } (init [1]) witnessExit).map
+      (fun s => (s.live, s.file, s.acked)) = some (false, [1], [1, 5]) := by decide
 
 theorem refute (c : Cfg) (file : List Nat) (sched : List Act) (f a : List Nat)
     (hw : (run c (init file) sched).map (fun s => (s.live, s.file, s.acked)) = some (false, f, a))
@@ -410,6 +518,11 @@ structure Facts where
   listenerReadsTouchUnderLock : Tri
   /-- SummonSwamp hands the instance out with its vigil already taken, under the lock the close decision holds -/
   summonTakesVigil : Tri
+  /-- SummonSwamp goes back to look at the swamp map after WaitForGracefulClose (it does not create an instance
+      while the closing one is still mapped) -/
+  summonWaitsForUnmap : Tri
+  /-- hydra.GracefulStop leaves its wait loop only when CountActiveSwamps() is 0 (or after the forced close) -/
+  stopWaitsUntilClosed : Tri
   /-- (not used by `classify`; the schedule driver uses it) SaveFunction drops a queued delete marker when a key
       is re-created and deleteHandler queues a marker only for an object that has a file pointer -/
   recreateDropsDeleteMarker : Tri
@@ -417,16 +530,22 @@ structure Facts where
 
 def cfgOf (f : Facts) : Cfg :=
   { destroyRechecks := f.destroyRechecksAfterDrain.isYes,
-    atomicSummon := f.listenerReadsTouchUnderLock.isYes && f.summonTakesVigil.isYes }
+    atomicSummon := f.listenerReadsTouchUnderLock.isYes && f.summonTakesVigil.isYes,
+    summonWaitsForUnmap := !f.summonWaitsForUnmap.isNo,
+    stopWaitsUntilClosed := !f.stopWaitsUntilClosed.isNo }
 
 def findings (c : Cfg) : List String :=
   (if c.destroyRechecks then [] else ["C16-auto-destroy-loses-acked-write"]) ++
-  (if c.atomicSummon then [] else ["C16-idle-close-loses-acked-write"])
+  (if c.atomicSummon then [] else ["C16-idle-close-loses-acked-write"]) ++
+  (if c.summonWaitsForUnmap then [] else ["C16-summon-replaces-closing-instance"]) ++
+  (if c.stopWaitsUntilClosed then [] else ["C16-stop-returns-before-swamps-closed"])
 
 def classify (f : Facts) : Verdict :=
   if f.destroyRechecksAfterDrain = .unknown then .undetermined "autoDestroy.rechecksAfterDrain" else
   if f.listenerReadsTouchUnderLock = .unknown then .undetermined "listener.readsTouchUnderLock" else
   if f.summonTakesVigil = .unknown then .undetermined "summon.takesVigil" else
+  if f.summonWaitsForUnmap = .unknown then .undetermined "summon.waitsForUnmap" else
+  if f.stopWaitsUntilClosed = .unknown then .undetermined "gracefulStop.waitsUntilClosed" else
   match findings (cfgOf f) with
   | [] => .holds
   | fs => .violated fs
@@ -436,31 +555,55 @@ theorem classify_sound (f : Facts) : (classify f).Sound (Holds (cfgOf f)) := by
   split; · trivial
   split; · trivial
   split; · trivial
+  split; · trivial
+  split; · trivial
   split
   · rename_i hf
     have h1 : (cfgOf f).destroyRechecks = true := by
       cases hx : (cfgOf f).destroyRechecks <;> simp [findings, hx] at hf ⊢
     have h2 : (cfgOf f).atomicSummon = true := by
       cases hx : (cfgOf f).atomicSummon <;> simp [findings, hx] at hf ⊢
+    have h3 : (cfgOf f).summonWaitsForUnmap = true := by
+      cases hx : (cfgOf f).summonWaitsForUnmap <;> simp [findings, hx] at hf ⊢
+    have h4 : (cfgOf f).stopWaitsUntilClosed = true := by
+      cases hx : (cfgOf f).stopWaitsUntilClosed <;> simp [findings, hx] at hf ⊢
     have : cfgOf f = repaired := by
-      cases hc : cfgOf f; simp [hc] at h1 h2; simp [repaired, h1, h2]
+      cases hc : cfgOf f; simp [hc] at h1 h2 h3 h4; simp [repaired, h1, h2, h3, h4]
     show Holds (cfgOf f)
     rw [this]; exact durable_repaired
   · rename_i fs hne
     refine ⟨?_, trivial⟩
     by_cases h1 : (cfgOf f).destroyRechecks = false
-    · have hc : cfgOf f = { destroyRechecks := false, atomicSummon := (cfgOf f).atomicSummon } := by
+    · have hc : cfgOf f = { destroyRechecks := false, atomicSummon := (cfgOf f).atomicSummon,
+                            summonWaitsForUnmap := (cfgOf f).summonWaitsForUnmap,
+                            stopWaitsUntilClosed := (cfgOf f).stopWaitsUntilClosed } := by
         cases hcc : cfgOf f; simp [hcc] at h1; simp [h1]
       rw [hc]
-      exact refute _ [1] _ [] [5] (destroy_loses_acked_write (cfgOf f).atomicSummon) ⟨5, by simp, by simp⟩
+      exact refute _ [1] _ [] [5] (destroy_loses_acked_write _ _ _) ⟨5, by simp, by simp⟩
     · have h1' : (cfgOf f).destroyRechecks = true := by simpa using h1
-      have h2 : (cfgOf f).atomicSummon = false := by
-        cases hx : (cfgOf f).atomicSummon with
-        | false => rfl
-        | true => exfalso; apply hne; simp [findings, h1', hx]
-      have hc : cfgOf f = { destroyRechecks := (cfgOf f).destroyRechecks, atomicSummon := false } := by
-        cases hcc : cfgOf f; simp [hcc] at h2; simp [h2]
-      rw [hc]
-      exact refute _ [1] _ [1] [1, 5] (idle_close_loses_acked_write _) ⟨5, by simp, by simp⟩
+      by_cases h2 : (cfgOf f).atomicSummon = false
+      · have hc : cfgOf f = { destroyRechecks := (cfgOf f).destroyRechecks, atomicSummon := false,
+                              summonWaitsForUnmap := (cfgOf f).summonWaitsForUnmap,
+                              stopWaitsUntilClosed := (cfgOf f).stopWaitsUntilClosed } := by
+          cases hcc : cfgOf f; simp [hcc] at h2; simp [h2]
+        rw [hc]
+        exact refute _ [1] _ [1] [1, 5] (idle_close_loses_acked_write _ _ _) ⟨5, by simp, by simp⟩
+      · have h2' : (cfgOf f).atomicSummon = true := by simpa using h2
+        by_cases h3 : (cfgOf f).summonWaitsForUnmap = false
+        · have hc : cfgOf f = { destroyRechecks := true, atomicSummon := true, summonWaitsForUnmap := false,
+                                stopWaitsUntilClosed := (cfgOf f).stopWaitsUntilClosed } := by
+            cases hcc : cfgOf f; simp [hcc] at h1' h2' h3; simp [h1', h2', h3]
+          rw [hc]
+          exact refute _ [1] _ [1] [1, 5] (stale_unmap_loses_acked_write _) ⟨5, by simp, by simp⟩
+        · have h3' : (cfgOf f).summonWaitsForUnmap = true := by simpa using h3
+          have h4 : (cfgOf f).stopWaitsUntilClosed = false := by
+            cases hx : (cfgOf f).stopWaitsUntilClosed with
+            | false => rfl
+            | true => exfalso; apply hne; simp [findings, h1', h2', h3', hx]
+          have hc : cfgOf f = { destroyRechecks := true, atomicSummon := true, summonWaitsForUnmap := true,
+                                stopWaitsUntilClosed := false } := by
+            cases hcc : cfgOf f; simp [hcc] at h1' h2' h3' h4; simp [h1', h2', h3', h4]
+          rw [hc]
+          exact refute _ [1] _ [1] [1, 5] early_exit_loses_acked_write ⟨5, by simp, by simp⟩
 
 end Hv.C16
